@@ -98,6 +98,10 @@ def run_harness(scratch, crate, harness, timeout_s=600, mem_gb=12, unwind=None, 
             res.covers[desc] = status
         elif status == "FAILURE":
             res.failed_checks.append((name, desc))
+    # the summary lines are the most robust source of failed checks
+    if not res.failed_checks:
+        for fm in re.finditer(r"Failed Checks: (.*)", out):
+            res.failed_checks.append(("summary", fm.group(1).strip().strip('"')))
     if "VERIFICATION:- SUCCESSFUL" in out:
         res.status = "success"
     elif "VERIFICATION:- FAILED" in out:
